@@ -87,6 +87,11 @@ impl Registry {
         if let Some(base_unit) = self.base_units.get(name) {
             return Some(base_unit.to_string());
         }
+        // `definitions` also holds quantities, which `lookup` does not
+        // resolve: only canonicalize names that are units.
+        if !self.units.contains_key(name) {
+            return None;
+        }
         if let Some(expr) = self.definitions.get(name) {
             if let Expr::Unit { ref name } = *expr {
                 if let Some(canonicalized) = self.canonicalize(&*name) {
@@ -94,12 +99,10 @@ impl Registry {
                 } else {
                     return Some(name.clone());
                 }
-            } else {
-                // we cannot canonicalize it further
-                return Some(name.to_owned());
             }
         }
-        None
+        // we cannot canonicalize it further
+        Some(name.to_owned())
     }
 
     fn canonicalize_with_prefix(&self, name: &str) -> Option<String> {
